@@ -198,8 +198,35 @@ func init() {
 }
 
 func checkC16(c *Ctx) {
-	o := &SemOpts{}
+	// numeric-looking strings used as numbers are a two-valued cell (coerced or type error): every producer of the same
+	// string must make the same choice in the same context
+	choices := map[string]map[string]string{}
+	o := &SemOpts{OnSoft: func(rec *SemRec, choice string) {
+		i := strings.LastIndex(rec.Cls, "|")
+		if i < 0 {
+			return
+		}
+		ctx, prod := rec.Cls[:i], rec.Cls[i+1:]
+		if choices[ctx] == nil {
+			choices[ctx] = map[string]string{}
+		}
+		choices[ctx][prod] = choice
+	}}
 	c.runSemFamily("FamProducers", "FamProducers_quick.cfg", o, 60*time.Minute)
+	nsoft := 0
+	for ctx, m := range choices {
+		first, firstProd := "", ""
+		for prod, ch := range m {
+			nsoft++
+			if first == "" {
+				first, firstProd = ch, prod
+			} else if ch != first {
+				c.violation("C16|producers|"+ctx+"|origin-dependent-coercion", ctx, map[string]interface{}{"detail": fmt.Sprintf("the string is %s when produced by %s but %s when produced by %s", first, firstProd, ch, prod), "choices": m})
+				break
+			}
+		}
+	}
+	c.cov("soft_cells_checked_for_producer_consistency", nsoft)
 	if c.Tier == "thorough" {
 		// the number-printing family also compares literal / arithmetic / bitwise producers of many magnitudes
 		c.runSemFamily("FamPrint", "FamPrint_thorough.cfg", &SemOpts{Strict: true, SpliceMeta: true}, 60*time.Minute)
